@@ -404,6 +404,7 @@ func runC08(r *ev.Run) {
 					if err != nil {
 						r.Add("impl_errors", 1)
 						r.Distinct("impl_error_classes", class)
+						r.Violation("c08.rows-error."+class+"."+cfgKind(e.cfg), fmt.Sprintf("[%s] RowsByCondition(%v) on well-typed conditions fails: %v", e.cfg.name, cs, err), map[string]interface{}{"index_config": e.cfg.name, "conditions": fmt.Sprint(cs), "error": err.Error()})
 						continue
 					}
 					if setStr(modelsToSet(got)) != setStr(want) {
